@@ -34,6 +34,8 @@ def pivot():
         U("A"), U("H1", disabled=True, serialize=["h1", "hh"], flags_last=True), U("B", serialize=["b"]),
         U("H2", disabled=True, attr_style="trailing"), U("H3", disabled=True, to_string="h3", attr_style="split"), U("C"),
     ], derives=d, note="`disabled` after key = value items in the same attribute, with a trailing comma, split over attributes"))
+    S.append(EnumSpec("Shared", [U("CmdStart"), U("CmdStop", fields=[Field("u8")]), U("CmdStatus", serialize=["cmd_status", "cmd_st"]), U("XCmd", serialize=["x_cmd", "y_cmd"])],
+                      derives=d, serialize_all="snake_case", note="spellings sharing a long common prefix / a common suffix"))
     S.append(EnumSpec("DisDef", [
         U("A"), U("Unknown", fields=[Field("String")], default=True, disabled=True), U("B", serialize=["b"]),
     ], derives=d, note="a variant that is BOTH disabled and default: it must never be produced, unmatched input is an error"))
